@@ -117,18 +117,30 @@ def conformance_case(seed):
         c0 = means[0]
         lam = 0.3 / narrow ** 2
     logl_fn = lambda x: -lam * np.sum((np.atleast_2d(x) - c0) ** 2, axis=1)
+    cutinfo = None
+    if narrow is None and rng.random() < 0.25:
+        # likelihood that is exactly zero beyond a hyperplane (all walkers start on the supported side): a proposal into the
+        # zero region has target density 0 and must be rejected whatever the proposal-density ratio says
+        a_dir = rng.standard_normal(d)
+        a_dir /= np.linalg.norm(a_dir)
+        c_cut = float(np.max(u @ a_dir) + rng.uniform(0.005, 0.2))
+        base_fn = logl_fn
+        logl_fn = lambda x, base_fn=base_fn: np.where(np.atleast_2d(x) @ a_dir < c_cut, base_fn(x), -np.inf)
+        cutinfo = (a_dir, c_cut)
     desc = dict(kernel=kernel, d=d, K=K, n=n, bk=bk, sigma=round(sigma, 4), beta=round(beta, 4), dofs=[float(v) for v in dofs])
     if narrow is not None:
         desc["narrow"] = narrow
+    if cutinfo is not None:
+        desc["zero_region"] = True
     L = np.linalg.cholesky(covs)
     Sinv = np.linalg.inv(covs)
     r = make_runner(kernel, u, logl_fn, ass, beta, ms, periodic, reflective, sigma)
-    tot = dict(redraws=0, decisive=0, outside=0, sweeps=0)
+    tot = dict(redraws=0, decisive=0, outside=0, sweeps=0, zero=0)
     # several consecutive sweeps on the SAME runner object (each run() call performs exactly one sweep because
     # n_max = 1/d): state carried from sweep to sweep (adapted step sizes, caches) is part of what is judged
     for sw in range(3):
-        bad, st = _one_sweep(rng, r, kernel, d, n, means, covs, dofs, L, Sinv, ass, beta, bk, periodic, reflective, logl_fn, sw)
-        for k in ("decisive", "outside"):
+        bad, st = _one_sweep(rng, r, kernel, d, n, means, covs, dofs, L, Sinv, ass, beta, bk, periodic, reflective, logl_fn, sw, cutinfo)
+        for k in ("decisive", "outside", "zero"):
             tot[k] += st.get(k, 0)
         tot["sweeps"] += 1
         if st.get("redraws"):
@@ -138,7 +150,7 @@ def conformance_case(seed):
     return desc, [], tot
 
 
-def _one_sweep(rng, r, kernel, d, n, means, covs, dofs, L, Sinv, ass, beta, bk, periodic, reflective, logl_fn, sw):
+def _one_sweep(rng, r, kernel, d, n, means, covs, dofs, L, Sinv, ass, beta, bk, periodic, reflective, logl_fn, sw, cutinfo=None):
     u = r.u.copy()
     ll_cur = r.logl.copy()
     sig = np.asarray(r.sigmas, float)[ass].copy()          # step size each walker will use in this sweep
@@ -183,6 +195,12 @@ def _one_sweep(rng, r, kernel, d, n, means, covs, dofs, L, Sinv, ass, beta, bk, 
     with np.errstate(over="ignore"):
         alpha = np.minimum(1.0, np.exp(beta * (ll1 - ll0) + fac))
     alpha = np.where(inside, alpha, 0.0)
+    # proposals into the zero-likelihood region (alpha = 0 exactly); those within rounding of the hyperplane are not judged
+    zero = inside & np.isneginf(ll1)
+    nearcut = np.zeros(n, bool)
+    if cutinfo is not None:
+        nearcut = np.abs(props @ cutinfo[0] - cutinfo[1]) < 1e-9
+        zero &= ~nearcut
     want = rng.random(n) < 0.5
     # Rounding budget of log(alpha), per walker.  (i) 1e-6 floor: with nu=1e6 the kernel's own 0.5*(nu+d)*log(1+q/nu) carries
     # ~1e-10 of cancellation noise, and a margin of 1e-9 produced one false alarm in 3e5 probes (alpha=3e-112) on the unchanged
@@ -196,12 +214,17 @@ def _one_sweep(rng, r, kernel, d, n, means, covs, dofs, L, Sinv, ass, beta, bk, 
     gll = np.zeros(n)
     for k in range(n):
         hstep = 1e-3 * sdmin[ass[k]]
-        gll[k] = max(abs(float(logl_fn(props[k] + hstep * e)[0] - logl_fn(props[k] - hstep * e)[0])) / (2 * hstep) for e in np.eye(d))
+        with np.errstate(invalid="ignore"):
+            gll[k] = max(abs(float(logl_fn(props[k] + hstep * e)[0] - logl_fn(props[k] - hstep * e)[0])) / (2 * hstep) for e in np.eye(d))
+    gll = np.where(np.isfinite(gll), gll, np.inf)          # at the edge of a zero-likelihood region: not decisive
     budget = (1e-6 + 16 * eps * conds[ass] * (1 + np.abs(q0) + np.abs(q1)) * (kernel == "tpcn")
               + 8 * eps * (1 + np.sqrt(np.abs(q0)) + np.sqrt(np.abs(q1))) / sdmin[ass] * (kernel == "tpcn") + 8 * eps * gll * d)
     urand = np.where(want, alpha * (1 - np.minimum(budget, 0.5)), np.minimum(alpha * (1 + budget) + 1e-300, 1.0))
     exp_acc = inside & (urand < alpha)
-    decisive = inside & (alpha > 1e-200) & (alpha < 1 - budget) & (budget < 1e-2)
+    with np.errstate(invalid="ignore"):
+        budget = np.where(np.isfinite(budget), budget, 1.0)
+        urand = np.where(np.isfinite(urand), urand, 0.5)
+    decisive = inside & (alpha > 1e-200) & (alpha < 1 - budget) & (budget < 1e-2) & ~nearcut
     # ---- real kernel under injected randomness
     seen_fac = []
     with attach.Hooks() as hk:
@@ -252,7 +275,7 @@ def _one_sweep(rng, r, kernel, d, n, means, covs, dofs, L, Sinv, ass, beta, bk, 
             bad.append(("acceptance-factor", f"walker {j}: acceptance factor {f[j]!r} but log t(u) - log t(u') = {fac[j]!r}"))
     elif kernel == "tpcn":
         bad.append(("harness", "acceptance factor hook not reached"))
-    wrong = np.where((got_acc != exp_acc) & (decisive | ~inside))[0]
+    wrong = np.where((got_acc != exp_acc) & (decisive | ~inside | zero))[0]
     if len(wrong) and not bad:
         k = int(wrong[0])
         bad.append(("accept-rule", f"walker {k}: alpha={alpha[k]!r}, uniform={urand[k]!r}, inside={bool(inside[k])}: expected "
@@ -261,7 +284,7 @@ def _one_sweep(rng, r, kernel, d, n, means, covs, dofs, L, Sinv, ass, beta, bk, 
         bad.append(("left-cube", "a walker left the unit cube"))
     if np.max(np.abs(x_new - u_new)) > 0 or np.max(np.abs(l_new - logl_fn(u_new))) > 1e-12 * (1 + np.max(np.abs(l_new))):
         bad.append(("record-split", "x / logl not updated together with u"))
-    return bad, dict(redraws=0, decisive=int(decisive.sum()), outside=int((~inside).sum()))
+    return bad, dict(redraws=0, decisive=int(decisive.sum()), outside=int((~inside).sum()), zero=int(zero.sum()))
 
 
 def _conf_batch(seeds):
@@ -459,6 +482,7 @@ def run():
             ck.event("kernel sweeps under injected randomness compared with the specification", stt.get("sweeps", 1))
             ck.event("walkers with a decisive accept/reject probe", stt.get("decisive", 0))
             ck.event("proposals driven outside the cube", stt.get("outside", 0))
+            ck.event("proposals driven into a region of exactly zero likelihood (must be rejected)", stt.get("zero", 0))
             if desc.get("narrow") is not None:
                 ck.event("conformance cases on a posterior 1e-3.5..1e-8 of the prior wide", 1)
                 ck.event("decisive probes in narrow-posterior cases", stt.get("decisive", 0))
